@@ -66,7 +66,7 @@ class SubsectionIO(RawIOBase):
 
     @_raise_if_file_closed
     def read(self, size: int = -1) -> bytes:
-        if size == -1:
+        if size < 0:
             size = self._size - self._seek
         if self._offset + self._seek > self._end:
             # if attempting to read after the section, return nothing
